@@ -57,6 +57,11 @@ partial def decE : Sexp → Option IExpr
   | .list [.atom "proj", i, e, k] => do pure (.proj (← i.nat?) (← decE e) (← k.nat?))
   | .list [.atom "field", i, e, .atom f] => do pure (.field (← i.nat?) (← decE e) f)
   | .list (.atom "match" :: i :: sc :: arms) => do pure (.matchE (← i.nat?) (← decE sc) (← optMapM decArm arms))
+  | .list (.atom "mcall" :: i :: fi :: recv :: .atom m :: args) => do
+      pure (.mcall (← i.nat?) (← fi.nat?) (← decE recv) m (← optMapM decE args))
+  | .list (.atom "scall" :: i :: fi :: .atom tn :: .atom m :: args) => do
+      pure (.scall (← i.nat?) (← fi.nat?) tn m (← optMapM decE args))
+  | .list (.atom "array" :: i :: es) => do pure (.array (← i.nat?) (← optMapM decE es))
   | _ => none
 partial def decArm : Sexp → Option IArm
   | .list [.atom "arm", p, b] => do pure (.mk (← decPat p) (← decE b))
@@ -78,7 +83,18 @@ structure Case where
   G : GEnv
   body : IExpr
 
+def decImplRow : Sexp → Option (ImplKey × String × Ty)
+  | .list [.atom "exact", k, .atom m, t] => do pure (.exact (← decTy k), m, ← decTy t)
+  | .list [.atom "constr", .atom c, .atom m, t] => do pure (.constr c, m, ← decTy t)
+  | _ => none
+
 def decCase : Sexp → Option Case
+  | .list [.atom "fn", _, .list [.atom "n0", k], .list (.atom "params" :: ps), .list [.atom "ret", r],
+           .list (.atom "funs" :: fs), env, .list (.atom "inherent" :: rows), .list (.atom "enums" :: ens),
+           .list [.atom "body", b]] => do
+      pure { n0 := ← k.nat?, params := ← optMapM decParam ps, ret := ← decTy r,
+             G := { funs := ← optMapM decFun fs, env := ← decEnv env, inherent := ← optMapM decImplRow rows,
+                    enums := ← optMapM Sexp.str? ens }, body := ← decE b }
   | .list [.atom "fn", _, .list [.atom "n0", k], .list (.atom "params" :: ps), .list [.atom "ret", r],
            .list (.atom "funs" :: fs), env, .list [.atom "body", b]] => do
       pure { n0 := ← k.nat?, params := ← optMapM decParam ps, ret := ← decTy r,
@@ -136,6 +152,7 @@ partial def annotPat : IPat → Ty → TPat
 def idOf : IExpr → Nat
   | .lit i _ | .name i _ | .tuple i _ | .closure i _ _ | .letE i _ _ _ | .block i _ | .ite i _ _ _ | .while i _ _
   | .call i _ _ | .un i _ _ | .bin i _ _ _ | .proj i _ _ | .field i _ _ | .matchE i _ _ => i
+  | .mcall i _ _ _ _ | .scall i _ _ _ _ | .array i _ => i
 
 mutual
 /-- the tree of the body with the REAL final type of every node (`none`: a node without a recorded type) -/
@@ -170,6 +187,9 @@ partial def annot (tab : List (Nat × Ty)) : IExpr → Option TExpr
   | .bin i op l r => do pure (.bin op (← annot tab l) (← annot tab r) (← lookupT tab i))
   | .proj i e k => do pure (.proj (← annot tab e) k (← lookupT tab i))
   | .field i e f => do pure (.field (← annot tab e) f (← lookupT tab i))
+  | .mcall _ _ _ _ _ => none
+  | .scall _ _ _ _ _ => none
+  | .array _ _ => none
   | .matchE i sc arms => do
       let ts ← annot tab sc
       pure (.matchE ts (← optMapM (annotArm tab ts.ty) arms) (← lookupT tab i))
